@@ -1543,6 +1543,33 @@ def c15_programs(tier, sd):
             for nv, mv in ((1, 1), (0, 5), (7, 0)):
                 ops += [["set", ["top", "n"], nv], ["set", ["top", "m"], mv], ["randomize", ["top"]], ["randomize_with", ["top"], [E(["<", b, lit(200)])]]]
             out.append({"tag": "dist", "desc": "dist %s with %s" % (d, o), "prog": pr, "world": [["top", "obj", "Top"]], "ops": ops})
+    # seeded random weight lists and accompanying constraints
+    for i in range(20 if tier == "quick" else 1200):
+        ent = []
+        for _ in range(rnd.randint(2, 5)):
+            lo = rnd.randint(0, 250)
+            item = lit(lo) if rnd.random() < 0.5 else ["rng", lit(lo), lit(min(255, lo + rnd.randint(0, 12)))]
+            r = rnd.random()
+            if r < 0.25:
+                w = 0
+            elif r < 0.6:
+                w = rnd.randint(1, 50)
+            elif r < 0.8:
+                w = rnd.choice([n, F("m")])
+            else:
+                w = rnd.choice([["*", n, F("m")], ["+", n, lit(1)], ["+", n, F("m")]])
+            ent.append([item, w])
+        if all(isinstance(e[1], int) and e[1] == 0 for e in ent):
+            ent[0][1] = 3
+        o = []
+        for _ in range(rnd.randint(0, 2)):
+            o.append(E(rand_expr(rnd, fields[:3], 1, True)))
+        pr = one_class(fields, [["dist", a, ent]] + o)
+        ops = []
+        for _ in range(3):
+            ops += [["set", ["top", "n"], rnd.choice([0, 0, 1, 2, 7])], ["set", ["top", "m"], rnd.choice([0, 1, 5])], ["randomize", ["top"]]]
+        ops.append(["randomize_with", ["top"], [E(["<", b, lit(200)])]])
+        out.append({"tag": "dist_random", "desc": "seeded random dist #%d" % i, "prog": pr, "world": [["top", "obj", "Top"]], "ops": ops})
     # dist on a signed field, inline dist, dist under a condition, dist over list elements
     pr = one_class(fields, [["dist", F("c"), [[lit(-5), 1], [["rng", lit(-128), lit(-120)], 2], [lit(7), 0]]]])
     out.append({"tag": "dist", "desc": "dist on signed field", "prog": pr, "world": [["top", "obj", "Top"]], "ops": [["randomize", ["top"]], ["randomize", ["top"]]]})
